@@ -265,6 +265,39 @@ def _(c):
         c.ensure("apoapsis_falling", sym.And(rd_now <= rd_prev, bool(ev.info == "Apoapsis")))
 
 
+
+@contract("C10", "label.StationMaskListener", funcs=[f"{LI}:StationMaskListener.info", f"{LI}:StationMaskListener.__call__", f"{LI}:StationMaskListener.check"],
+          assumptions=["StateVector ADT", "the horizon mask is an arbitrary function of the azimuth (C11.mask proves what get_mask returns)"])
+def _(c):
+    """mask events: the watched quantity is the elevation minus the mask value at the target's azimuth angle; the label is AOS iff that quantity is rising through
+    zero (the target comes out from behind the mask), LOS otherwise -- whatever the sign of the elevation rate; nothing is reported while the target is below the horizon"""
+    if not c.symbolic:
+        return
+    th0, ph0, th1, ph1, pd1 = c.real("theta_prev"), c.real("phi_prev"), c.real("theta_now"), c.real("phi_now"), c.real("phi_dot_now")
+    mask = lambda th: sym.uf("mask_value", th)
+
+    def mk(th, ph, pd):
+        def conv(self, frame=None, form=None, same=None):
+            return SymStateVector([1, th, ph, 0, 0, pd], date=self.date, form="spherical", frame=frame)
+        return SymStateVector([0] * 6, date=SymDate(0), form="cartesian", frame="EME2000", __convert__=conv)
+    w = c.world(stubs={f"{LI}:Listener.check": lambda self, orb: "BASE"})
+    station = types.SimpleNamespace(get_mask=mask, name="STATION")
+    lis = w.new(f"{LI}:StationMaskListener", station)
+    lis.prev = mk(th0, ph0, c.real("phi_dot_prev"))
+    now = mk(th1, ph1, pd1)
+    g0, g1 = ph0 - mask(th0), ph1 - mask(th1)
+    c.ensure("watched_quantity", lis(now) == g1)
+    ev = lis.info(now)
+    if ev.info == "AOS":
+        c.ensure("aos_rising_through_the_mask", g1 > g0)
+    else:
+        c.ensure("los_falling_behind_the_mask", sym.And(g1 <= g0, bool(ev.info == "LOS")))
+    res = lis.check(now)
+    if res is False:
+        c.ensure("silent_below_the_horizon", ph1 <= 0)
+    else:
+        c.ensure("otherwise_the_sign_change_test", sym.And(ph1 > 0, bool(res == "BASE")))
+
 @contract("C10", "events_iterator", funcs=[f"{LI}:events_iterator", f"{LI}:find_event"])
 def _(c):
     """events_iterator yields exactly the points carrying an event (of the requested kinds), in order; find_event
@@ -415,6 +448,51 @@ def _(c):
     import re
     c.ensure("pass_structure", re.fullmatch(r"(M?L)?(AML)*(AM?)?", seq) is not None)
 
+
+
+def _grid_mask(tier, rng):
+    """stations at (43.6N, 1.4E), (-33.9, 18.4) x masks {2 deg with two 26 deg obstacles 0.25 rad wide, 5 deg with a 40 deg wall over a quarter of the horizon} x sampling
+    step {30 s, 60 s}, ISS-like Kepler orbit over 16 h; edges 0.01 rad wide"""
+    for s in (0, 1):
+        for m in (0, 1):
+            for st in (30.0, 60.0):
+                yield {"station": s, "mask": m, "step": st}
+
+
+@contract("C10", "mask_stream", funcs=[f"{LI}:StationMaskListener.info", f"{LI}:StationMaskListener.__call__", f"{LI}:StationMaskListener.check",
+                                       "beyond.frames.stations:TopocentricFrame.visibility"], grid=_grid_mask, level="bounded")
+def _(c):
+    """bounded: with a horizon mask that has steep edges (so that a target can go behind an obstacle while still climbing, and come out while descending), every mask
+    event sits on the mask (elevation = mask value at its azimuth angle, 1e-6 rad) and is labelled by the direction in which the target crosses the mask there -- AOS
+    when elevation - mask goes from negative to positive (evaluated 0.5 s before and after on the propagated orbit), LOS the other way -- and mask AOS / LOS alternate"""
+    from beyond.dates import timedelta
+    from beyond.frames.stations import create_station
+    lat, lon = [(43.6, 1.4), (-33.9, 18.4)][c.integer("station")]
+    two_pi = 2 * math.pi
+    if c.integer("mask") == 0:
+        lo, hi = math.radians(2), math.radians(26)
+        az = [0.0, 0.70, 0.71, 0.95, 0.96, 3.0, 5.50, 5.51, 5.75, 5.76, two_pi]
+        el = [lo, lo, hi, hi, lo, lo, lo, hi, hi, lo, lo]
+    else:
+        lo, hi = math.radians(5), math.radians(40)
+        az = [0.0, 1.0, 1.01, 2.6, 2.61, two_pi]
+        el = [lo, lo, hi, hi, lo, lo]
+    sta = create_station(f"VM{c.integer('station')}{c.integer('mask')}_{int(c.real('step'))}", (lat, lon, 100.0), mask=[az, el])
+    orb, _, d0, T = _mk_orbit("iss", "kepler")
+    step = c.real("step")
+    pts = [p for p in sta.visibility(orb, start=d0, stop=d0 + timedelta(hours=16), step=timedelta(seconds=step), events=True)
+           if p.event is not None and type(p.event).__name__ == "MaskEvent"]
+    g = lambda o: float(o.copy(frame=sta, form="spherical").phi) - float(sta.get_mask(float(o.copy(frame=sta, form="spherical").theta)))
+    ok_on, ok_label, seq = True, True, []
+    for p in pts:
+        ok_on = ok_on and abs(g(p)) < 1e-6
+        before, after = g(orb.propagate(p.date - timedelta(seconds=0.5))), g(orb.propagate(p.date + timedelta(seconds=0.5)))
+        if before * after < 0:   # a clean crossing (not within half a second of a mask edge)
+            ok_label = ok_label and ((p.event.info == "AOS") == (after > before))
+        seq.append(p.event.info)
+    c.ensure("events_found", len(pts) >= 2)
+    c.ensure("event_on_the_mask", ok_on)
+    c.ensure("label_matches_direction_of_crossing", ok_label)
 
 def _grid_station_extra(tier, rng):
     """stations at latitudes {43.6 N, 20 S, 2 N} x extra listeners given through events= {node + apside in EME2000, node + apside without a frame of their own, anomaly} x
